@@ -244,9 +244,13 @@ fn main() {
             let mut out = Vec::new();
             let mut count = 0usize;
             let mut dist = [0usize; 4]; // ascii-only, has CR, has astral, has non-ascii BMP
+            let mut distinct = std::collections::HashSet::new();
             for t in fixed.iter().map(|s| s.to_string()).chain((0..n).map(|_| gen_text(&mut rng, maxlen))) {
                 search_one(&t, &mut out);
                 count += 1;
+                if t.contains('\n') || t.contains('\r') || !t.is_ascii() {
+                    distinct.insert(t.clone());
+                }
                 if t.is_ascii() { dist[0] += 1; }
                 if t.contains('\r') { dist[1] += 1; }
                 if t.chars().any(|c| c as u32 >= 0x10000) { dist[2] += 1; }
@@ -256,7 +260,7 @@ fn main() {
             for v in &out {
                 println!("{}", v);
             }
-            println!("{}", json!({"summary": {"texts": count, "ascii_only": dist[0], "with_cr": dist[1], "with_astral": dist[2], "with_bmp_nonascii": dist[3]}}));
+            println!("{}", json!({"summary": {"texts": count, "distinct_nontrivial": distinct.len(), "ascii_only": dist[0], "with_cr": dist[1], "with_astral": dist[2], "with_bmp_nonascii": dist[3]}}));
         }
         "one" => {
             let t: String = serde_json::from_str(&args.str("text-json", "\"\"")).unwrap();
